@@ -68,7 +68,8 @@ def check(col: Collector, tier: str):
         if isinstance(n, ast.Assign):
             for t in n.targets:
                 fresh = isinstance(n.value, (ast.Dict, ast.List, ast.Set)) and not getattr(n.value, "keys", None) and not getattr(n.value, "elts", None) \
-                    or (isinstance(n.value, ast.Call) and call_name(n.value) in ("dict", "list", "set", "defaultdict"))
+                    or (isinstance(n.value, ast.Call) and call_name(n.value) in ("dict", "list", "set", "defaultdict")) \
+                    or (isinstance(n.value, ast.Constant) and n.value.value in (False, None, 0))
                 if isinstance(t, ast.Attribute) and isinstance(t.value, ast.Name) and t.value.id == "self":
                     covered[f"S:{t.attr}"] = "fresh" if fresh else src(n.value)
                 elif isinstance(t, ast.Attribute):
@@ -179,6 +180,14 @@ def check(col: Collector, tier: str):
             col.add("C07.R4", f"executor.{name}", "reset-on-normal-exit", ok,
                     f"every returning path ({len(paths)}) must call self.reset()", f.loc)
 
+    # a query that was transformed but never written must not leak into the next translation: either reset() is called
+    # unconditionally at the start of apply_ast_transformations, or a pending flag protocol guards it
+    aat = ex.methods["apply_ast_transformations"]
+    ok, why = _pending_protocol(repo, eff, ex, aat, reset)
+    col.add("C07.R4", "executor.apply_ast_transformations", "unfinished-translation-is-reset-before-the-next", ok,
+            "history [transform q1; transform q2; write q2]: what q1 declared (method types, enums, job scripts) must be gone before q2 "
+            "is transformed; " + why, aat.loc)
+
     # ---------------- R5 registries not imported by value
     regs = {c.rpartition(".")[2]: c for c in covered if c.startswith("G:")}
     for m in repo.modules.values():
@@ -220,6 +229,41 @@ def check(col: Collector, tier: str):
     ok = all(isinstance(v, (ast.List, ast.Tuple, ast.Dict, ast.Call)) for v in gmade.values()) and len(gmade) >= 6
     col.add("C07.R6", "generated_code.__init__", "all-fields-fresh", ok,
             "every field of the emission state must be created in the constructor", gi.loc)
+
+
+def _pending_protocol(repo, eff, ex, aat, reset):
+    body = [s for s in aat.node.body if not (isinstance(s, ast.Expr) and isinstance(s.value, ast.Constant))]
+    # statements before the first one that may write surviving state
+    head = []
+    for st in body:
+        w = {x for x in eff.stmt_may_write(aat, st) if x not in ALLOW_CELLS}
+        if isinstance(st, ast.If) or (isinstance(st, ast.Assign) and src(st.targets[0]).startswith("self.") and isinstance(st.value, ast.Constant)) \
+                or (isinstance(st, ast.Expr) and src(st.value) == "self.reset()"):
+            head.append(st)
+            continue
+        if w:
+            break
+        head.append(st)
+    for st in head:
+        if isinstance(st, ast.Expr) and src(st.value) == "self.reset()":
+            return True, "unconditional reset at the start"
+    for i, st in enumerate(head):
+        if isinstance(st, ast.If) and isinstance(st.test, ast.Attribute) and src(st.test).startswith("self.") and not st.orelse \
+                and len(st.body) == 1 and isinstance(st.body[0], ast.Expr) and src(st.body[0].value) == "self.reset()":
+            flag = st.test.attr
+            set_true = any(isinstance(x, ast.Assign) and src(x.targets[0]) == f"self.{flag}" and isinstance(x.value, ast.Constant) and x.value.value is True
+                           for x in head[i + 1:])
+            set_false = any(isinstance(n, ast.Assign) and src(n.targets[0]) == f"self.{flag}" and isinstance(n.value, ast.Constant) and n.value.value is False
+                            for n in walk_no_nested(reset.node))
+            init = ex.methods.get("__init__")
+            init_false = init is not None and any(isinstance(n, ast.Assign) and src(n.targets[0]) == f"self.{flag}" and isinstance(n.value, ast.Constant)
+                                                  and n.value.value is False for n in walk_no_nested(init.node))
+            others = [f.short for f in repo.all_functions() for n in walk_no_nested(f.node) if isinstance(n, ast.Assign)
+                      and any(isinstance(t, ast.Attribute) and t.attr == flag for t in n.targets) and f.name not in ("__init__", "reset", "apply_ast_transformations")]
+            if set_true and set_false and init_false and not others:
+                return True, f"pending-flag protocol on self.{flag}"
+            return False, f"flag self.{flag}: set True after the check={set_true}, cleared by reset={set_false}, initialised False={init_false}, other writers={others}"
+    return False, "apply_ast_transformations neither resets unconditionally nor checks a pending flag before its first write"
 
 
 def _reinit_at_entry(ex, cell: str, ws) -> bool:
